@@ -194,7 +194,7 @@ def check_sequence(case, col=None):
             if col is not None:
                 col.case(None, False, labels=("seq:skipped(solo disagrees or not ok)",))
             return []  # solo disagreement is reported by the main part
-        solos.append((info["real"], Counter(map(tuple, info["res"].rec.injected))))
+        solos.append((info["real"], Counter(map(tuple, info["res"].rec.injected)), info["instances"]))
     env.reset()
     for i, prog in enumerate(case["programs"]):
         # keep registries; re-register classes (registry is cleared, per-render registries are NOT)
@@ -206,7 +206,7 @@ def check_sequence(case, col=None):
         registry.clear()
         component_node_subclasses_by_name.clear()
         registry.register(app_settings.DYNAMIC_COMPONENT_NAME, DynamicComponent)
-        res = pgrun.run_real(prog, mode, budget=2000, keep_state=True)
+        res = pgrun.run_real(prog, mode, budget=max(2000, 20 * solos[i][2] + 50), keep_state=True)  # same budget rule as the solo render
         if res.exc is not None:
             fails.append(("[%s] render #%d of the sequence raised %r (solo render succeeded)" % (mode, i, res.exc), "c05-seq-exc:" + exc_bucket(res.exc)))
             break
